@@ -397,6 +397,10 @@ def h_option_flatten(pattern, deep):
 
 
 def jobs_for(prop, tier):
+    if prop == 'C05':
+        return jobs_c05(tier) + [j for j in jobs_option_below(tier) if j[1][3] in ('num', 'localindex')]
+    if prop == 'C09':
+        return jobs_c09(tier) + [j for j in jobs_option_below(tier) if j[1][3] in ('rpad', 'rpad_and_clip')]
     return {'C01': jobs_c01, 'C03': jobs_c03, 'C05': jobs_c05, 'C09': jobs_c09}.get(prop, lambda t: [])(tier)
 
 
@@ -821,3 +825,132 @@ def h_rpad_axis0(cls, dims, target, clip):
         return akrun_check(head + '%s %d 0' % ('rpadclip' if clip else 'rpad', target), py_pad(inp, target, clip, None), '%s %s::%s(%d, axis=0)' % (cls, inp, meth, target))
     return mdischarge(nc.m, '%s::%s axis=0 shape=%s target=%d' % (cls, meth, ','.join(map(str, dims)), target), obls, [], replay=replay, prefer=[nc.lencontent <= 24],
                       extra=dict(bounds='shape %s and target %d concrete (case split), buffer contents symbolic' % (dims, target)))
+
+
+# ------------------------------------------------------------------------------------------------ option-type nodes: methods that act below the node
+def build_bytemasked(nc, pattern, valid_when, name='node'):
+    """ByteMaskedArray over the opaque content: entry i is valid iff (mask[i] != 0) == valid_when; pattern fixes which entries are missing,
+    the mask byte values themselves are symbolic (any non-zero byte is 'true')"""
+    n = len(pattern)
+    fo, sz, al, fields = nc.layout_of('BMA', '_ZNK7awkward15ByteMaskedArray6lengthEv')
+    data = nc.m.array(name + '_mask', ('i', 8), n, const=True)
+    a0 = z3.Array(name + '_mask', z3.BitVecSort(64), z3.BitVecSort(8))
+    mk = [z3.Select(a0, BV(i)) for i in range(n)]
+    for i, miss in enumerate(pattern):
+        nc.m.assume((mk[i] != 0) == (bool(valid_when) != bool(miss)))
+    nc.m.assume(nc.lencontent >= n)
+    cells = nc.content_header(name, nc.vptr_of('N7awkward15ByteMaskedArrayE', 'BMA'))
+    nc.index_cells(cells, fo[1], data, BV(0), BV(n), mangled_T='a')
+    cells.update({fo[2]: (nc.content0, 8), fo[2] + 8: (NULL, 8), fo[3]: (BV(1 if valid_when else 0, 8), 1)})
+    this = nc.m.record(name, cells, const=True)
+    return this, mk
+
+
+def build_bitmasked(nc, pattern, valid_when, lsb, name='node'):
+    n = len(pattern)
+    nbytes = (n + 7) // 8 or 1
+    fo, sz, al, fields = nc.layout_of('BIT', '_ZNK7awkward14BitMaskedArray6lengthEv')
+    data = nc.m.array(name + '_mask', ('i', 8), nbytes, const=True)
+    a0 = z3.Array(name + '_mask', z3.BitVecSort(64), z3.BitVecSort(8))
+    for i, miss in enumerate(pattern):
+        byte = z3.Select(a0, BV(i // 8))
+        bit = (i % 8) if lsb else (7 - i % 8)
+        nc.m.assume((z3.Extract(bit, bit, byte) == 1) == (bool(valid_when) != bool(miss)))
+    nc.m.assume(nc.lencontent >= n)
+    cells = nc.content_header(name, nc.vptr_of('N7awkward14BitMaskedArrayE', 'BIT'))
+    nc.index_cells(cells, fo[1], data, BV(0), BV(nbytes), mangled_T='h')
+    cells.update({fo[2]: (nc.content0, 8), fo[2] + 8: (NULL, 8), fo[3]: (BV(1 if valid_when else 0, 8), 1), fo[5]: (BV(n), 8), fo[6]: (BV(1 if lsb else 0, 8), 1)})
+    this = nc.m.record(name, cells, const=True)
+    return this, a0
+
+
+OPTION_CLASSES = {
+    'IndexedOptionArray64': ('14IndexedArrayOfIlLb1EE', 'IA'),
+    'ByteMaskedArray': ('15ByteMaskedArray', 'BMA'),
+    'BitMaskedArray': ('14BitMaskedArray', 'BIT'),
+    'UnmaskedArray': ('13UnmaskedArray', 'UMA'),
+}
+BELOW_METHODS = {   # name -> (mangled method with args, slot fragment, extra leading int args)
+    'num': ('3numEll', '3numEll', ()),
+    'localindex': ('10localindexEll', '10localindexEll', ()),
+    'rpad': ('4rpadElll', '4rpadElll', (3,)),
+    'rpad_and_clip': ('13rpad_and_clipElll', '13rpad_and_clipElll', (3,)),
+}
+
+
+@guard
+def h_option_below(cls, pattern, variant, meth):
+    """an option-type node asked for num / localindex / rpad / rpad_and_clip at an axis below itself: the valid entries' content is handed the same
+    request (same axis, same depth - an option node is not a list level), and the result keeps None exactly at the missing positions, every valid
+    position i holding what the content answered for *its* element"""
+    pattern = tuple(bool(x) for x in pattern)
+    n = len(pattern)
+    short, src = OPTION_CLASSES[cls]
+    nc = NodeCtx(['IA', 'BMA', 'BIT', 'UMA', 'IDX', 'CNT', 'UTL', 'KD', 'IDS', 'NA'], [], unwind=max(10, 2 * n + 10))
+    mm, frag, extra = BELOW_METHODS[meth]
+    F = nc.derived_stub(frag, meth)
+    if cls == 'IndexedOptionArray64':
+        this, idx = build_option64(nc, pattern)
+        atom = lambda i: idx[i]
+        head = lambda model, lc: 'option64 %s ' % fullnative.ints([model.eval(x, model_completion=True).as_signed_long() for x in idx])
+        which = lambda model: [model.eval(x, model_completion=True).as_signed_long() for x in idx]
+    elif cls == 'ByteMaskedArray':
+        this, mk = build_bytemasked(nc, pattern, variant)
+        atom = lambda i: BV(i)
+        head = lambda model, lc: 'bytemask %s %d ' % (fullnative.ints([model.eval(x, model_completion=True).as_signed_long() for x in mk]), 1 if variant else 0)
+        which = lambda model: [(-1 if pattern[i] else i) for i in range(n)]
+    elif cls == 'BitMaskedArray':
+        vw, lsb = variant
+        this, a0 = build_bitmasked(nc, pattern, vw, lsb)
+        nbytes = (n + 7) // 8 or 1
+        atom = lambda i: BV(i)
+        head = lambda model, lc: 'bitmask %s %d %d %d ' % (fullnative.ints([model.eval(z3.Select(a0, BV(k)), model_completion=True).as_long() for k in range(nbytes)]), 1 if vw else 0, n, 1 if lsb else 0)
+        which = lambda model: [(-1 if pattern[i] else i) for i in range(n)]
+    else:
+        if any(pattern):
+            raise Unsupported('an UnmaskedArray has no missing entries')
+        this, vals = build_unmasked(nc, n)
+        atom = lambda i: BV(i)
+        head = lambda model, lc: 'unmasked '
+        which = lambda model: list(range(n))
+    nc.m.record('ret', {})
+    out = nc.m.call('_ZNK7awkward%s%s' % (short, mm), [Ptr('ret', 0), this] + [BV(x) for x in extra] + [BV(1), BV(0)])
+    obls = [('%s does not raise' % meth, out.raised)]
+    calls = [(pc, a) for pc, nm, a in out.trace if nm == meth]
+    obls.append(('the content is asked', z3.Not(z3.Or([pc for pc, _ in calls] + [z3.BoolVal(False)]))))
+    for pc, a in calls:
+        want_args = list(extra) + [1, 0]
+        obls.append(('the content receives the same request (same axis, same depth)', z3.And(pc, z3.Or([x != w for x, w in zip(a, want_args)]))))
+    want = [NONE if pattern[i] else Elem(F(atom(i))) for i in range(n)]
+    for g, res in nodeh.decode_cases(nc, out.mem, nc.m.cell('ret', 0)):
+        if res is None:
+            obls.append(('a result is returned', z3.And(g, z3.Not(out.raised))))
+        else:
+            obls += [(nm, z3.And(g, c)) for nm, c in compare(value(res), want)]
+
+    def replay(model, ent):
+        iv = which(model)
+        lc = max([model.eval(nc.lencontent, model_completion=True).as_signed_long(), n] + [v + 1 for v in iv])
+        if lc > 60:
+            return False, 'content too long to replay', dict(index=iv)
+        h2, inner = inner_lists(lc)
+        ref = {'num': lambda l: len(l), 'localindex': lambda l: list(range(len(l))), 'rpad': lambda l: py_pad(l, 3, False, None), 'rpad_and_clip': lambda l: py_pad(l, 3, True, None)}[meth]
+        exp = [None if v < 0 else ref(inner[v]) for v in iv]
+        op = {'num': 'num 1', 'localindex': 'localindex 1', 'rpad': 'rpad 3 1', 'rpad_and_clip': 'rpadclip 3 1'}[meth]
+        return akrun_check(h2 + head(model, lc) + op, exp, '%s (valid entries -> content %s)::%s(axis=1)' % (cls, iv, meth))
+    return mdischarge(nc.m, '%s::%s below the node, pattern=%s variant=%s' % (cls, meth, ''.join('N' if p else 'v' for p in pattern), variant), obls, [], replay=replay,
+                      prefer=[nc.lencontent <= 8], extra=dict(bounds='%d entries, missing pattern concrete (case split), index / mask byte values symbolic' % n))
+
+
+def jobs_option_below(tier):
+    js = []
+    pats = [(0, 1, 0), (1, 0, 0, 1)] if tier == 'quick' else [p for k in (1, 2, 3, 4) for p in itertools.product((0, 1), repeat=k)]
+    for meth in BELOW_METHODS:
+        for p in pats:
+            js.append((h_option_below, ('IndexedOptionArray64', p, None, meth), 600))
+            for vw in (True, False):
+                js.append((h_option_below, ('ByteMaskedArray', p, vw, meth), 600))
+            for vw, lsb in ((True, True), (False, False)) if tier == 'quick' else itertools.product((True, False), repeat=2):
+                js.append((h_option_below, ('BitMaskedArray', p, (vw, lsb), meth), 600))
+        js.append((h_option_below, ('UnmaskedArray', (0, 0, 0), None, meth), 600))
+    return js
